@@ -83,7 +83,11 @@ func vpC02Churn(envActions int) {
 	// the others: up to two protocol-conforming actions at store-visible points
 	go func() {
 		for i := 0; i < envActions; i++ {
-			vpYieldLazy("env.other", 3*H)
+			if i == 0 {
+				vpYieldLazy("env.other", 3*H)
+			} else {
+				vpDelay("env.other-gap", 0, H) // the second action follows the first after a symbolic delay
+			}
 			switch {
 			case !st.live():
 				st.write("env:other", "create", vpRecMk("other", "tok-o", 0), false, 0)
